@@ -184,6 +184,17 @@ func (h *H) K(r, code int64) int64 {
 	return KVal(r, code)
 }
 
+// Obj makes a rule-local struct.
+func (h *H) Obj(r int64) *Nobj { return &Nobj{X: r + 500} }
+
+// KA is a conc child that was handed a field of a rule-local struct.
+func (h *H) KA(r, code, x int64) int64 {
+	if x != r+500 {
+		panic(fmt.Sprintf("local-field-wrong-r%d-got%d", r, x))
+	}
+	return h.K(r, code)
+}
+
 // After is the statement following a conc block; it checks that it sees every
 // value the children assigned.
 func (h *H) After(r, p, pv, qv, fv int64) {
